@@ -673,7 +673,8 @@ def genuine_cases():
     add('write', 'direct', raise_action('SockError'), 'genuine:sendfail')
     add('write', 'direct', raise_action('SockError'), 'genuine:sendfail',
         ignore_abrupt=True)
-    add('write', 'direct', raise_action('TLSClosedConnectionError'), 'genuine:closed')
+    # write() on a closed connection: since the upstream fix the test is before writeAsync's try
+    add('write', 'pretry', raise_action('TLSClosedConnectionError'), 'genuine:closed')
     # --- close
     add('close', 'direct', raise_action('SockError'), 'genuine:sendfail')
     add('close', 'direct', raise_action('SockError'), 'genuine:closed')
